@@ -9,7 +9,8 @@ Correspondence: result, call log, ALL states returned so far, what the cache ser
 defaults — after every operation — vs the heap model LiquerModel/Iso.lean (`iso.run`).
 Oracle (implementation only): (O1) every evaluation returns what a fresh evaluation in a pristine environment returns,
 (O2) a state returned earlier changes only when the caller mutates that very state, (O3) the configured defaults never change,
-(O4) what the cache serves equals the fresh evaluation of its key, (O5) object-identity separation: no mutable object is
+(O4) what the cache serves equals the fresh evaluation of its key, (O6) every result equals the value-level meaning of its chain
+(an independent pure interpreter in this file), (O5) object-identity separation: no mutable object is
 reachable from two different owners (two returned states, a returned state and a cache entry, anything and the defaults).
 """
 import os, sys, shutil, copy, importlib
@@ -112,6 +113,15 @@ def register():
             raise TypeError("var")
         lst.append(v)
         return state
+
+    @command
+    def cvapp(x, name, v, context=None):
+        _log("cvapp", x, name, v)
+        lst = context.vars.get(name)      # the context's variables: the objects of the predecessor state, not of the clone handed to the command
+        if not isinstance(lst, list):
+            raise TypeError("var")
+        lst.append(v)
+        return x
 
     @command(volatile=True)
     def vol(x):
@@ -237,6 +247,102 @@ def fresh_value(q, defaults):
         CALLS[:] = old_calls
 
 
+# ------------------------------------------------------------------ the value-level meaning of a chain (independent of liquer and of the Lean model)
+def split_top(text, sep):
+    """split at `sep` outside ~X~…~E"""
+    out, depth, cur, i = [], 0, "", 0
+    while i < len(text):
+        if text.startswith("~X~", i):
+            depth += 1
+            cur += "~X~"
+            i += 3
+        elif text.startswith("~E", i) and depth:
+            depth -= 1
+            cur += "~E"
+            i += 2
+        elif text[i] == sep and depth == 0:
+            out.append(cur)
+            cur = ""
+            i += 1
+        else:
+            cur += text[i]
+            i += 1
+    return out + [cur]
+
+
+def meaning(text, defaults):
+    """pure interpretation: every value is copied, nothing is shared -> dict(data, vars, volatile, caching) | None (fails)"""
+    dc = copy.deepcopy
+    st = dict(data=None, vars=dc(defaults), volatile=False, caching=True)
+    for step in split_top(text.lstrip("/"), "/"):
+        parts = split_top(step, "-")
+        name, args = parts[0], []
+        for a in parts[1:]:
+            if a.startswith("~X~") and a.endswith("~E"):
+                sub = meaning(a[3:-2], defaults)
+                if sub is None:
+                    return None
+                args.append(dc(sub["data"]))
+            else:
+                args.append(a)
+        d, vs = st["data"], st["vars"]
+        try:
+            if name == "one" and not args:
+                st["data"] = 1
+            elif name == "mk":
+                st["data"] = list(args)
+            elif name == "app" and len(args) == 1 and isinstance(d, list):
+                st["data"] = d + [args[0]]
+            elif name == "ident" and not args:
+                pass
+            elif name == "copyl" and not args and isinstance(d, list):
+                pass
+            elif name == "ext" and len(args) == 1 and isinstance(d, list) and isinstance(args[0], list):
+                st["data"] = d + args[0]
+            elif name == "pair" and len(args) == 1:
+                st["data"] = [dc(d), args[0]]
+            elif name == "let" and len(args) == 2 and isinstance(args[0], str):
+                vs[args[0]] = args[1]
+            elif name == "getvar" and len(args) == 1 and isinstance(args[0], str):
+                st["data"] = dc(vs.get(args[0]))
+            elif name == "vapp" and len(args) == 2 and isinstance(vs.get(args[0]), list):
+                vs[args[0]] = vs[args[0]] + [args[1]]
+            elif name == "cvapp" and len(args) == 2 and isinstance(vs.get(args[0]), list):
+                pass
+            elif name == "vol" and not args:
+                st["volatile"] = True
+            elif name == "nocache" and not args:
+                st["caching"] = False
+            else:
+                return None
+        except Exception:
+            return None
+    return st
+
+
+def meaning_part(text, defaults):
+    m = meaning(text, defaults)
+    if m is None:
+        return "FAIL"
+    return (canon(m["data"]), "0", "1" if m["volatile"] else "0", "1" if m["caching"] else "0",
+            ";".join(sorted("%s=%s" % (hx(k), canon(v)) for k, v in m["vars"].items())))
+
+
+def aliases_volatile_input(text):
+    """the known finding: somewhere (top level or inside a link) a `getvar` / `cvapp` runs on a volatile predecessor (a `vol` to its left)"""
+    seen_vol = False
+    for step in split_top(text.lstrip("/"), "/"):
+        parts = split_top(step, "-")
+        for a in parts[1:]:
+            if a.startswith("~X~") and a.endswith("~E") and aliases_volatile_input(a[3:-2]):
+                return True
+        if parts[0] in ("getvar", "cvapp") and seen_vol:
+            return True
+        if parts[0] == "vol":
+            seen_vol = True
+    return False
+
+
 def scribble(x, depth=0):
     """mutate every mutable container reachable from x except the variable dictionary (that is what MV/SV are for)"""
     if depth > 6:
@@ -295,6 +401,12 @@ def run_history(task):
                 if got != want:
                     res["bad"].append(("result:%s:%s" % (name, op[1]), "%s, operation %d of %r: evaluate(%r) returns %r, a fresh evaluation returns %r" % (
                         name, n, ops, op[1], got, want)))
+                # O6: the value-level meaning of the chain (pure functions over copied values)
+                pure = meaning_part(op[1], defaults)
+                if got != pure:
+                    key = "meaning:volatile-input-not-cloned" if aliases_volatile_input(op[1]) else "meaning:%s:%s" % (name, op[1])
+                    res["bad"].append((key, "%s, operation %d of %r: evaluate(%r) returns %r, the value-level meaning of the chain (every command a pure function of copied values) is %r" % (
+                        name, n, ops, op[1], got, pure)))
             else:
                 i = op[1]
                 st = returned[i] if i < len(returned) else None
@@ -304,6 +416,9 @@ def run_history(task):
                     if kind == "MD":
                         if isinstance(st.data, list):
                             st.data[:] = op[2]
+                    elif kind == "MI":
+                        if isinstance(st.data, list) and st.data and isinstance(st.data[0], list):
+                            st.data[0][:] = op[2]
                     elif kind == "MV":
                         v = st.metadata["vars"].get(op[2])
                         if isinstance(v, list):
@@ -374,7 +489,11 @@ def g_chain(rng, depth, defaults, maxlen=4):
         return link() if depth > 0 and rng.random() < 0.25 else rng.choice(NAMES)
 
     r = rng.random()
-    if r < 0.7:
+    listvars = [k for k, v in defaults.items() if isinstance(v, list)]
+    if r < 0.12 and listvars:
+        # the first action's context variables are those of the initial state (vars_clone() of the configured defaults)
+        first = "cvapp-%s-%s" % (rng.choice(listvars), rng.choice(NAMES))
+    elif r < 0.7:
         first = "mk" + "".join("-" + arg() for _ in range(rng.randint(0, 3)))
     elif r < 0.85:
         first = "one"
@@ -400,8 +519,10 @@ def g_chain(rng, depth, defaults, maxlen=4):
             lets.append(k)
         elif r < 0.76 and lets:
             steps.append("getvar-" + rng.choice(lets))
-        elif r < 0.86 and lets:
+        elif r < 0.83 and lets:
             steps.append("vapp-%s-%s" % (rng.choice(lets), rng.choice(NAMES)))
+        elif r < 0.88 and lets:
+            steps.append("cvapp-%s-%s" % (rng.choice(lets), rng.choice(NAMES)))
         elif r < 0.91:
             steps.append("vol")
         elif r < 0.95:
@@ -448,8 +569,10 @@ def g_history(rng):
         else:
             i = rng.randrange(nret)
             r2 = rng.random()
-            if r2 < 0.35:
+            if r2 < 0.28:
                 ops.append(("MD", i, g_list(rng)))
+            elif r2 < 0.38:
+                ops.append(("MI", i, g_list(rng)))
             elif r2 < 0.55:
                 ops.append(("MV", i, rng.choice(VARS), g_list(rng)))
             elif r2 < 0.7:
@@ -479,6 +602,8 @@ def wire(ci, defaults, ops, universe):
             ws.append("E:" + hx(op[1]))
         elif op[0] == "MD":
             ws.append("MD:%d:%s" % (op[1], canon(op[2])))
+        elif op[0] == "MI":
+            ws.append("MI:%d:%s" % (op[1], canon(op[2])))
         elif op[0] == "MV":
             ws.append("MV:%d:%s:%s" % (op[1], hx(op[2]), canon(op[3])))
         elif op[0] == "SV":
